@@ -883,6 +883,21 @@ func wireGen(c *runCtx, run func([]string)) {
 				}
 			}
 		}
+		// every top-level field with every other wire type in its tag (the field number is kept)
+		for j := range ps {
+			if len(ps[j]) == 0 {
+				continue
+			}
+			for w := byte(0); w < 8; w++ {
+				if ps[j][0]&7 == w {
+					continue
+				}
+				q := append([][]byte(nil), ps...)
+				q[j] = bytes.Clone(ps[j])
+				q[j][0] = q[j][0]&^7 | w
+				obj(wireJoin(q))
+			}
+		}
 		// single-byte mutations (header region dense, then sampled)
 		nm := c.n(250, 2500)
 		if big {
